@@ -167,7 +167,8 @@ def membership_stage(c, cfg):
                          p_child=1.0 if conditional else 0.0)
              for _ in range(c.rng.randrange(1, 5))]
     try:
-      ss = sl.build_space(nodes)
+      # every other space is READ (is_conditional / contains / listings) between its builder calls
+      ss = sl.build_space(nodes, probed=(si % 2 == 1))
     except Exception:  # pylint: disable=broad-except
       continue
     dumped = sl.dump_space(ss)
@@ -281,7 +282,7 @@ def walk_stage(c, cfg):
         k['name'] = sl.created_name(nodes[-1])
         k.pop('index', None)
     try:
-      ss = sl.build_space(nodes)
+      ss = sl.build_space(nodes, probed=(c.rng.random() < 0.5))
     except Exception:  # pylint: disable=broad-except
       continue
     dumped = sl.dump_space(ss)
